@@ -148,7 +148,19 @@ impl fmt::Display for KNumber {
 
 impl Hash for KNumber {
     fn hash<H: Hasher>(&self, state: &mut H) {
-        state.write_u64(self.to_bits())
+        // Numbers that compare as equal need to produce matching hashes (e.g. `1 == 1.0`),
+        // and integers are compared with floats by converting them to f64 (see PartialEq).
+        // The hash is therefore derived from the number's f64 value, with floats that hold
+        // integer values being hashed as integers.
+        let f = match *self {
+            Self::F64(f) => f,
+            Self::I64(i) => i as f64,
+        };
+        if f.fract() == 0.0 && f >= i64::MIN as f64 && f < i64::MAX as f64 {
+            state.write_u64(f as i64 as u64)
+        } else {
+            state.write_u64(f.to_bits())
+        }
     }
 }
 
